@@ -59,6 +59,20 @@ def run(run, h):
         atoms = offs if (run.tier == "thorough" or len(offs) <= 10) else rng.sample(offs, 10)
         for o, wd, kind, fl in atoms:
             inputs.append(("random_atom", base[:2 * o] + rng.randbytes(wd).hex() + base[2 * (o + wd):]))
+        # an atom overwritten with a copy of ANOTHER atom of the same kind from the same value (equal generators, equal
+        # scalars, h equal to a g_i): still well-typed bytes; decoding may accept or refuse them, it must not panic
+        same = {}
+        for o, wd, kind, fl in offs:
+            if kind in ("g1", "g2", "s"):
+                same.setdefault(kind, []).append((o, wd))
+        for kind, lst in same.items():
+            if len(lst) >= 2:
+                pairs = [(lst[i], lst[i + 1]) for i in range(len(lst) - 1)] + [(lst[0], lst[-1])]
+                if run.tier == "quick" and len(pairs) > 6:
+                    pairs = rng.sample(pairs, 6)
+                for (o1, w1), (o2, w2) in pairs:
+                    inputs.append(("duplicate_atom", base[:2 * o1] + base[2 * o2:2 * (o2 + w2)] + base[2 * (o1 + w1):]))
+                    inputs.append(("duplicate_atom", base[:2 * o2] + base[2 * o1:2 * (o1 + w1)] + base[2 * (o2 + w2):]))
         for o, wd, kind, fl in offs:
             if kind == "u8":      # one-byte counters (the index of a revocation pair) at the top of their range
                 for v in (255, 254, 253, 128):
